@@ -423,7 +423,10 @@ impl Hist {
         let reach = reachable_from(&p, start);
         let refv = &self.st.refv;
         let kink = p.nodes.iter().enumerate().any(|(i, n)| match n {
-            Node::Op { kind: OpKind::Relu, args, .. } => reach[i] && has_kink(&refv[args[0]]),
+            Node::Op { kind: OpKind::Relu, args, .. } => {
+                let eps = if p.is_exact_class() { 0.0 } else { 10.0 * tau() * refv.iter().map(|t| t.max_abs()).fold(1.0f64, f64::max) };
+                reach[i] && near_kink(&refv[args[0]], eps)
+            }
             _ => false,
         });
         if kink {
